@@ -151,3 +151,120 @@ pub fn live_bytes() -> isize {
     PEAK.with(|p| if v > p.get() { p.set(v) });
     v
 }
+
+// ---------------------------------------------------------------- simulated wall clock and process id
+//
+// std reaches the wall clock through libc's `clock_gettime(CLOCK_REALTIME)` (also `gettimeofday`, `time`)
+// and the process id through `getpid`. Defining those symbols here makes both part of the world: a caller
+// thread inside a job sees the simulated values of its world (different in every world, advancing by one
+// microsecond per read), everything else sees the real ones. cc6502 reads neither today; the probes count
+// reads so that a change which starts to (a build stamp, a time-seeded choice) is observed under different
+// clocks and pids and shows up as a C05 divergence.
+
+thread_local! {
+    static SIM_CLOCK_NS: Cell<i128> = const { Cell::new(-1) };
+    static SIM_PID: Cell<i32> = const { Cell::new(0) };
+    static CLOCK_READS: Cell<u32> = const { Cell::new(0) };
+    static PID_READS: Cell<u32> = const { Cell::new(0) };
+}
+
+#[repr(C)]
+pub struct Timespec {
+    tv_sec: i64,
+    tv_nsec: i64,
+}
+#[repr(C)]
+pub struct Timeval {
+    tv_sec: i64,
+    tv_usec: i64,
+}
+
+extern "C" {
+    fn syscall(num: i64, ...) -> i64;
+}
+#[cfg(target_arch = "x86_64")]
+mod nr {
+    pub const CLOCK_GETTIME: i64 = 228;
+    pub const GETTIMEOFDAY: i64 = 96;
+    pub const GETPID: i64 = 39;
+}
+#[cfg(target_arch = "aarch64")]
+mod nr {
+    pub const CLOCK_GETTIME: i64 = 113;
+    pub const GETTIMEOFDAY: i64 = 169;
+    pub const GETPID: i64 = 172;
+}
+
+/// Some(start in ns since the epoch, pid) while a job runs on this thread, None otherwise.
+pub fn set_sim_clock(v: Option<(i128, i32)>) {
+    match v {
+        Some((ns, pid)) => {
+            SIM_CLOCK_NS.with(|c| c.set(ns));
+            SIM_PID.with(|c| c.set(pid));
+        }
+        None => {
+            SIM_CLOCK_NS.with(|c| c.set(-1));
+            SIM_PID.with(|c| c.set(0));
+        }
+    }
+    CLOCK_READS.with(|c| c.set(0));
+    PID_READS.with(|c| c.set(0));
+}
+pub fn clock_reads() -> (u32, u32) {
+    (CLOCK_READS.with(|c| c.get()), PID_READS.with(|c| c.get()))
+}
+
+fn sim_now() -> Option<i128> {
+    let v = SIM_CLOCK_NS.try_with(|c| c.get()).unwrap_or(-1);
+    if v < 0 {
+        return None;
+    }
+    let _ = SIM_CLOCK_NS.try_with(|c| c.set(v + 1000));
+    let _ = CLOCK_READS.try_with(|c| c.set(c.get() + 1));
+    Some(v)
+}
+
+#[no_mangle]
+pub unsafe extern "C" fn clock_gettime(clk: i32, ts: *mut Timespec) -> i32 {
+    // CLOCK_REALTIME = 0, CLOCK_REALTIME_COARSE = 5
+    if (clk == 0 || clk == 5) && !ts.is_null() {
+        if let Some(ns) = sim_now() {
+            (*ts).tv_sec = (ns / 1_000_000_000) as i64;
+            (*ts).tv_nsec = (ns % 1_000_000_000) as i64;
+            return 0;
+        }
+    }
+    syscall(nr::CLOCK_GETTIME, clk as i64, ts) as i32
+}
+
+#[no_mangle]
+pub unsafe extern "C" fn gettimeofday(tv: *mut Timeval, tz: *mut u8) -> i32 {
+    if !tv.is_null() {
+        if let Some(ns) = sim_now() {
+            (*tv).tv_sec = (ns / 1_000_000_000) as i64;
+            (*tv).tv_usec = ((ns % 1_000_000_000) / 1000) as i64;
+            return 0;
+        }
+    }
+    syscall(nr::GETTIMEOFDAY, tv, tz) as i32
+}
+
+#[no_mangle]
+pub unsafe extern "C" fn time(t: *mut i64) -> i64 {
+    let mut ts = Timespec { tv_sec: 0, tv_nsec: 0 };
+    clock_gettime(0, &mut ts);
+    if !t.is_null() {
+        *t = ts.tv_sec;
+    }
+    ts.tv_sec
+}
+
+#[no_mangle]
+pub unsafe extern "C" fn getpid() -> i32 {
+    let p = SIM_PID.try_with(|c| c.get()).unwrap_or(0);
+    if p != 0 {
+        let _ = PID_READS.try_with(|c| c.set(c.get() + 1));
+        return p;
+    }
+    syscall(nr::GETPID) as i32
+}
